@@ -1606,12 +1606,35 @@ func (g *Gen) specError(c *Contract, cl *Clause, err error) {
 		where = fmt.Sprintf("%s:%d", c.File, cl.Line)
 	}
 	msg := fmt.Sprintf("%s: %q: %v", where, cl.Text, err)
+	if strings.Contains(err.Error(), "unresolved identifier") {
+		// the clause speaks about a program variable that does not exist (any more) where the clause applies:
+		// the obligation cannot be generated, which is reported as that obligation having failed
+		g.failClause("contract", cl.Text, err.Error())
+		return
+	}
 	for _, e := range g.specErrs {
 		if e == msg {
 			return
 		}
 	}
 	g.specErrs = append(g.specErrs, msg)
+}
+
+// failClause records an obligation that can no longer be generated from the code as a failed obligation.
+func (g *Gen) failClause(kind, text, reason string) {
+	fnName := g.lemmaKey
+	if g.top != nil {
+		fnName = g.ctx.funcKey(g.top)
+	}
+	src := text + " :: cannot be generated: " + reason
+	for _, o := range g.obls {
+		if o.Kind == kind && o.Src == src {
+			return
+		}
+	}
+	g.kindCount[kind]++
+	g.obls = append(g.obls, &Obligation{Name: fmt.Sprintf("%s#%s[%d]{%s}", fnName, kind, g.kindCount[kind], src), Kind: kind, Fn: fnName, Src: src,
+		Cond: boolLit(true), Goal: boolLit(false), PreludeLen: len(g.lines)})
 }
 
 // staticallyFresh: the address is rooted at an allocation performed by this function.
